@@ -226,7 +226,8 @@ def observe(tap, spec, inject, over_after=None):
     tap.inject = {}; tap.over_after = None         # no injection while reading results
     post = getters(m, spec.count)
     obs = {"outcome": outcome, "pre": pre, "post": post, "used": len(log), "log": log, "mismatch": mism,
-           "aux": sum(1 for e in log if e["tag"] in ("mgs", "gw")), "k": None, "m": m, "chosen_status": None}
+           "aux": sum(1 for e in log if e["tag"] in ("mgs", "gw")), "k": None, "m": m, "chosen_status": None,
+           "inject": dict(inject), "over_after": over_after}
     if outcome == "S":
         obs["k"] = post.get("k_solution")
         try:
@@ -238,6 +239,7 @@ def observe(tap, spec, inject, over_after=None):
             obs["chosen_solved"] = bool(ch.is_solved()) if ch is not m else True
         except Exception as e:
             obs["chosen_solved"] = "R:" + repr(e)
+    obs["req"] = spec.request(obs)          # parameters that depend on the run are read now
     return obs
 
 
@@ -482,12 +484,10 @@ def injection_plans(nat_log, spec, extend, timed):
 def run_spec(ctx, tap, spec, extend=2, timed=False, label=""):
     runs = []
     nat = observe(tap, spec, {})
-    nat["inject"] = {}; nat["over_after"] = None
     runs.append(nat)
     for inj, oa in injection_plans(nat["log"], spec, extend, timed):
-        o = observe(tap, spec, inj, oa); o["inject"] = inj; o["over_after"] = oa
-        runs.append(o)
-    reqs = [spec.request(o) for o in runs]
+        runs.append(observe(tap, spec, inj, oa))
+    reqs = [o["req"] for o in runs]
     mods = [parse_res(l) for l in ctx.model.run(reqs)]
     eng = "E4_" + spec.cls
     any_concrete = False; disagreements = []
